@@ -79,24 +79,26 @@ func (f *Intern) Call(s *slip.Scope, args slip.List, depth int) (result slip.Obj
 		so = slip.String(":") + so
 	}
 	var status slip.Object
-	vv := p.GetVarVal(string(so))
-	switch {
-	case vv == nil:
+	if fi := p.GetFunc(strings.ToLower(string(so))); fi != nil && p.GetVarVal(string(so)) == nil {
 		// A function of that name makes the symbol present already, as
 		// find-symbol reports it. Only a name the package knows nothing
 		// about is entered.
-		if fi := p.GetFunc(strings.ToLower(string(so))); fi != nil {
-			switch {
-			case fi.Pkg != p:
-				status = slip.Symbol(":inherited")
-			case fi.Export:
-				status = slip.Symbol(":external")
-			default:
-				status = slip.Symbol(":internal")
-			}
-		} else {
-			p.Set(string(so), slip.Unbound)
+		switch {
+		case fi.Pkg != p:
+			status = slip.Symbol(":inherited")
+		case fi.Export:
+			status = slip.Symbol(":external")
+		default:
+			status = slip.Symbol(":internal")
 		}
+		return slip.Values{slip.Symbol(so), status}
+	}
+	// Looking the name up and creating it is one step, another routine
+	// may intern the same name at the same time.
+	vv, created := p.Intern(string(so))
+	switch {
+	case created:
+		// a new symbol, no status
 	case vv.Pkg == &slip.KeywordPkg:
 		status = slip.Symbol(":external")
 	case vv.Pkg == p:
